@@ -124,6 +124,10 @@ def c11_function(T, fname, body, obs, label):
             un = guarded(l[3], bool(re.search(r"filter\(.*channel_mask", itxt)))
             if un:
                 problems.append("caller buffer accessed outside the mask guard of its channel: %s" % "; ".join(sorted(set(un))[:3]))
+        # (2b) control state is not modified inside a loop over channels (every channel must see the same state)
+        for (place, how, ln) in syn.collect_writes(l[3], {}):
+            if place and place.startswith("self.") and place not in PER_CHANNEL and place not in ("self.channel_mask", "self.resampler", "self.*", "self.?"):
+                problems.append("control state `%s` is modified inside the loop over channels (%s): later channels see a different state" % (place, how[:60]))
         # (3) nothing carried from one channel's iteration to the next
         declared = set(bound)
         for n in rp.walk(l[3]):
@@ -224,6 +228,18 @@ def c11_stage(scratch, tier, log):
     try:
         syn_src = scratch.read("synchro.rs")
         sig, body, l0, _ = rp.find_fn(syn_src, "resample_unit", None)
+        tmp = []
+        fields = syn.struct_fields(syn_src, "FftResampler")
+        storage = [k for k, ty in fields.items() if "Vec<" in ty] + ["fft", "ifft"]
+        c17_function("FftResampler", "resample_unit", body, sig, storage, tmp)
+        for o in tmp:
+            o.name = "C11.FftResampler.resample_unit.same_path_for_every_channel(no branch on sample values)"
+            if o.status == FAILED:
+                o.detail = "resample_unit takes a data-dependent path, so what a channel receives depends on the shared work buffers' previous contents: " + o.detail
+            obs.append(o)
+        rets = [n for n in rp.walk(body) if n[0] == "return"]
+        obs.append(ob("C11.FftResampler.resample_unit.single_exit", FAILED if rets else DISCHARGED, "FftResampler::resample_unit",
+                      "early return in resample_unit: the per-channel overlap may not be updated from this unit's transform" if rets else ""))
         stm = [rp.show(st).replace(" ", "") for st in body[1]]
         need = ["self.input_buf[0..self.fft_size_in].copy_from_slice(wave_in)",
                 "forvalinself.output_f[new_len..].iter_mut(){..}",
@@ -390,6 +406,14 @@ def c17_stage(scratch, tier, log):
                 c17_function(T, m, body, sig, storage, obs)
         except (rp.ParseError, Undecided) as e:
             obs.append(ob("C17.%s" % T, UNDECIDED, T, str(e)))
+    try:
+        src = scratch.read("synchro.rs")
+        fields = syn.struct_fields(src, "FftResampler")
+        storage = [k for k, ty in fields.items() if "Vec<" in ty] + ["fft", "ifft"]
+        sig, body, l0, _ = rp.find_fn(src, "resample_unit", None)
+        c17_function("FftResampler", "resample_unit", body, sig, storage, obs)
+    except (rp.ParseError, Undecided) as e:
+        obs.append(ob("C17.FftResampler", UNDECIDED, "FftResampler", str(e)))
     # constructor helpers whose results size the control state
     try:
         src = scratch.read("asynchro_sinc.rs")
